@@ -6,6 +6,7 @@ and resolving labels into addresses while writing the result with the fjm Writer
 """
 
 import dataclasses
+import sys
 from collections import defaultdict
 from pathlib import Path
 from typing import Deque, List, Dict, Tuple, Optional
@@ -264,6 +265,10 @@ def assemble(
     :param max_recursion_depth: The compiler supports macros that recursively uses other macros,
     up to the specified recursion depth.
     """
+    # the macro-resolve stage sets python's (process-wide) recursion limit according to max_recursion_depth. Put the
+    #  caller's limit back when done - otherwise the parsing stage of the next assembly in this process runs under this
+    #  call's limit, and whether a deeply nested expression assembles depends on what was assembled before.
+    callers_recursion_limit = sys.getrecursionlimit()
     try:
         with PrintTimer('  parsing:         ', print_time=print_time):
             macros = parse_macro_tree(input_files, memory_width, warning_as_errors)
@@ -298,3 +303,5 @@ def assemble(
         raise FlipJumpAssemblerException(
             "Unknown exception during assembling the .fj files, please report this bug"
         ) from unknown_exception
+    finally:
+        sys.setrecursionlimit(callers_recursion_limit)
